@@ -98,12 +98,28 @@ def alphabet(world, h):
     return e1prop.std_alphabet(world, h)
 
 
+def alphabet_u(world, h):
+    """the same plus hand edits of generated files (the queries must follow the change of ownership)"""
+    return e1prop.std_alphabet(world, h) + [["uwrite", t, "by hand\n"] for t in world.targets]
+
+
+def world_u():
+    import copy
+    w = copy.deepcopy(worlds.curated()["chain"])
+    w.name = "chain-u"
+    # seed states: a generated file edited by hand, before and after a build has noticed it
+    w.prefixes = [[["ifchange", ["top"]], ["uwrite", "mid", "by hand\n"]],
+                  [["ifchange", ["top"]], ["uwrite", "mid", "by hand\n"], ["ifchange", ["top"]]],
+                  [["ifchange", ["top"]], ["uwrite", "mid", "by hand\n"], ["ifchange", ["top"]], ["uwrite", "mid", "by hand\n"]]]
+    return w
+
+
 def plan(tier):
     W = worlds.curated()
     if tier == "quick":
         names = ["chain", "csum-deep", "always", "fail", "dynamic"]
-        return [(W[n], alphabet, 3, 1) for n in names]
-    return [(W[n], alphabet, 4) for n in W]
+        return [(W[n], alphabet, 3, 1) for n in names] + [(world_u(), alphabet_u, 2, 2)]
+    return [(W[n], alphabet, 4) for n in W] + [(world_u(), alphabet_u, 4, 3)]
 
 
 def main(tier):
@@ -123,6 +139,7 @@ def main(tier):
 def replay(path):
     doc = json.load(open(path))
     W = dict(worlds.curated())
+    W["chain-u"] = world_u()
     bindir = common.build_subject()
     from ..e1 import _job, _init_worker
     _init_worker(str(bindir))
